@@ -358,6 +358,9 @@ impl From<TheoreticalIsotopicPattern> for PeakList {
 
 impl PartialEq for TheoreticalIsotopicPattern {
     fn eq(&self, other: &Self) -> bool {
+        if self.len() != other.len() {
+            return false;
+        }
         for (a, b) in self.iter().zip(other.iter()) {
             if a != b {
                 return false;
@@ -369,6 +372,9 @@ impl PartialEq for TheoreticalIsotopicPattern {
 
 impl PartialEq<[Peak]> for TheoreticalIsotopicPattern {
     fn eq(&self, other: &[Peak]) -> bool {
+        if self.len() != other.len() {
+            return false;
+        }
         for (a, b) in self.iter().zip(other.iter()) {
             if a != b {
                 return false;
